@@ -30,6 +30,10 @@ def scenarios(ctx: Ctx) -> List[Dict[str, Any]]:
     for k in range(ctx.pick(4, 30)):
         sc.append({"id": f"queue{base + k}", "src": "gen", "seed": 43000 + base + k, "steps": 70, "world_kwargs": {"focus": "queue"},
                    "mix": "adv"})
+    for k in range(ctx.pick(10, 60)):
+        # vehicles that join a queue in the same step (same enqueue time): the tie must be broken the same way everywhere
+        sc.append({"id": f"queued{base + k}", "src": "gen", "seed": 44000 + base + k, "steps": 90, "world_kwargs": {"focus": "queue"},
+                   "mix": "queue"})
     return sc
 
 
